@@ -21,7 +21,7 @@ func XMultiSameMethod() *spec.Spec {
 
 // Extended returns the extended families (everything beyond the documented core combinations).
 func Extended(thorough bool) []*spec.Spec {
-	out := []*spec.Spec{XMultiSameMethod(), XCrossFile(), XTwoServiceFiles(), XTimestampCards(), XTimestampCardsFmt(), XEmptyOrders(), XOneofSiblings(), XSharedMethodHeader(), XQuotedHeaderTexts(), XQuotedAnnotationValues(), XForeignResponse(), XSameNamedNestedEnums(), XOneofVariantShapes(), XInt64Cards(), XHeaderNameShapes(), XParamNameClashes(), XHeaderOverrideShapes(), XUnwrapWrapperShapes(), XProto2Basic(), XSharedTypesAcrossServiceFiles(), XHeaderTypeFormat(), XNestedAnnotated(), XHeaderSpellingTypes(), XUnwrapCycles(), XTwoGoPackages(false), XTwoGoPackages(true), XJSONNames(), XSameServiceNameTwoPackages(), XOneofUnsetNameClash()}
+	out := []*spec.Spec{XMultiSameMethod(), XCrossFile(), XTwoServiceFiles(), XTimestampCards(), XTimestampCardsFmt(), XEmptyOrders(), XOneofSiblings(), XSharedMethodHeader(), XQuotedHeaderTexts(), XQuotedAnnotationValues(), XForeignResponse(), XSameNamedNestedEnums(), XOneofVariantShapes(), XInt64Cards(), XHeaderNameShapes(), XParamNameClashes(), XHeaderOverrideShapes(), XUnwrapWrapperShapes(), XProto2Basic(), XSharedTypesAcrossServiceFiles(), XHeaderTypeFormat(), XNestedAnnotated(), XHeaderSpellingTypes(), XUnwrapCycles(), XTwoGoPackages(false), XTwoGoPackages(true), XJSONNames(), XSameServiceNameTwoPackages(), XOneofUnsetNameClash(), XMapBeforeMessages(), XServiceHeaderCounts()}
 	out = append(out, XWellKnownPositions()...)
 	out = append(out, XAnnotationCards()...)
 	out = append(out, XIdentifierShapes()...)
@@ -52,13 +52,22 @@ func XCrossFile() *spec.Spec {
 	svc := &spec.File{Path: "x_xfile.proto", Package: pkg, Imports: []string{types.Path},
 		Messages: []*spec.Message{
 			spec.M("ItemsByKey", spec.Msg("data", "Items").Map().Unw()),
+			// the annotated enums of the other files used DIRECTLY as field types here (singular, repeated, optional): their codecs
+			// belong to the files that declare them
 			spec.M("Order", spec.F("id", "string"), spec.Msg("total", "Money"), spec.Msg("blob", "Blob"), spec.Msg("stamp", "Stamp"), spec.Msg("place", "Place"),
-				spec.Msg("tagged", "Tagged"), spec.Msg("by_key", "Items").Map(), spec.Msg("shape", "Shape")),
+				spec.Msg("tagged", "Tagged"), spec.Msg("by_key", "Items").Map(), spec.Msg("shape", "Shape"),
+				spec.En("level", "Level"), spec.En("levels", "Level").Rep(), spec.En("grade", "Grade").Opt()),
 		},
 		Services: []*spec.Service{EchoService("OrderService", "Order", "Money", "Place", "Shape")}}
+	// a file that declares nothing but an enum with custom values (it still needs its codec file from both Go plugins)
+	enumsOnly := &spec.File{Path: "x_xfile_enums.proto", Package: pkg,
+		Enums: []*spec.Enum{{Name: "Grade", Values: []*spec.EnumValue{{Name: "GRADE_UNSPECIFIED", Num: 0, Custom: spec.Str("none")}, {Name: "GRADE_A", Num: 1, Custom: spec.Str("a")}}}}}
+	svc.Imports = append(svc.Imports, enumsOnly.Path)
+	// an unrelated sibling of the package, not imported by the service file, with field examples of its own (the mock of the
+	// service file is a function of that file and what it imports)
 	other := &spec.File{Path: "x_xfile_other.proto", Package: pkg,
-		Messages: []*spec.Message{spec.M("Unrelated", spec.F("big", "uint64").I64(spec.EncNumber))}}
-	s := &spec.Spec{Name: "x_xfile", Files: []*spec.File{types, svc, other}}
+		Messages: []*spec.Message{spec.M("Unrelated", spec.F("big", "uint64").I64(spec.EncNumber), spec.F("actor", "string").Ex("alice", "bob"))}}
+	s := &spec.Spec{Name: "x_xfile", Files: []*spec.File{types, enumsOnly, svc, other}}
 	return withCell(s, "ext/unit=cross_file", "extended", "valid", "genonly", "multifile")
 }
 
@@ -426,6 +435,39 @@ func XOneofUnsetNameClash() *spec.Spec {
 	return withCell(spec.One("x_oneof_unset_name", f), "ext/unit=oneof_variant_named_like_unset_branch", "extended", "valid", "codec")
 }
 
+// XMapBeforeMessages: a scalar-valued and an enum-valued map declared BEFORE the message-typed fields and nested declarations of
+// a message whose types are reachable in no other way (what a traversal does after a map field).
+func XMapBeforeMessages() *spec.Spec {
+	res := spec.M("Resource", spec.F("id", "string"), spec.F("labels", "string").Map(), spec.En("flags", "Flag").Map(), spec.Msg("spec", "Spec"), spec.Msg("status", "Status"),
+		spec.Msg("extra", "Resource.Extra"))
+	res.Messages = []*spec.Message{spec.M("Extra", spec.F("k", "string"))}
+	f := &spec.File{Enums: []*spec.Enum{spec.E("Flag", "FLAG_UNSPECIFIED", "FLAG_ON")},
+		Messages: []*spec.Message{spec.M("Ref", spec.F("id", "string")), res, spec.M("Spec", spec.F("size", "int32")), spec.M("Status", spec.F("phase", "string"))},
+		Services: []*spec.Service{spec.Svc("ResourceService", "/r", spec.RPC("GetResource", "Ref", "Resource", "GET", "/resources/{id}"), spec.RPC("PutResource", "Resource", "Resource", "PUT", "/resources/{id}"))}}
+	return withCell(spec.One("x_map_before_messages", f), "ext/unit=scalar_map_before_message_fields", "extended", "valid")
+}
+
+// XServiceHeaderCounts: services with 1..5 REQUIRED service-level headers, each with two routes that add a different required
+// method header and one route that adds none (what is built once per registration from the service headers and extended per
+// request must not be shared between routes).
+func XServiceHeaderCounts(counts ...int) *spec.Spec {
+	f := &spec.File{Messages: []*spec.Message{spec.M("Req", spec.F("name", "string")), spec.M("Resp", spec.F("name", "string"))}}
+	if len(counts) == 0 {
+		counts = []int{1, 2, 3, 4, 5}
+	}
+	for _, n := range counts {
+		svc := spec.Svc(fmt.Sprintf("Hdr%dService", n), fmt.Sprintf("/h%d", n),
+			spec.RPC("Alpha", "Req", "Resp", "POST", "/alpha").H(&spec.Header{Name: "X-Alpha", Type: "string", Required: true}),
+			spec.RPC("Beta", "Req", "Resp", "POST", "/beta").H(&spec.Header{Name: "X-Beta", Type: "string", Required: true}),
+			spec.RPC("Plain", "Req", "Resp", "POST", "/plain"))
+		for i := 1; i <= n; i++ {
+			svc.H(&spec.Header{Name: fmt.Sprintf("X-Svc-%d", i), Type: "string", Required: true})
+		}
+		f.Services = append(f.Services, svc)
+	}
+	return withCell(spec.One("x_service_header_counts", f), "ext/unit=service_header_counts", "extended", "valid")
+}
+
 // XSameServiceNameTwoPackages: the v1 / v2 layout - two files of different proto (and Go) packages that each declare a service of
 // the SAME simple name, v2 importing a type of v1. Generation-level unit: what is emitted for one file (names and bytes) must not
 // depend on whether the other one is generated in the same invocation.
@@ -476,8 +518,12 @@ func XUnwrapCycles() *spec.Spec {
 		spec.M("Shelf", spec.Msg("boxes", "Box").Map().Unw()),
 		spec.M("Box", spec.F("label", "string"), spec.Msg("shelves", "Shelf").Map()),
 		spec.M("Req", spec.F("id", "string")),
+		// a value-unwrap wrapper with members beside the unwrapped list, one of them a map of the wrapper itself: the cycle
+		// runs through map values only
+		spec.M("TagTree", spec.F("tags", "string").Rep().Unw(), spec.Msg("children", "TagTree").Map(), spec.F("note", "string")),
+		spec.M("Forest", spec.Msg("roots", "TagTree").Map()),
 	}
-	svc := spec.Svc("CycleService", "/cy", spec.RPC("GetTree", "Req", "Tree", "POST", "/tree"), spec.RPC("GetByRegion", "Req", "ByRegion", "POST", "/region"),
+	svc := spec.Svc("CycleService", "/cy", spec.RPC("GetForest", "Req", "Forest", "POST", "/forest"), spec.RPC("GetTree", "Req", "Tree", "POST", "/tree"), spec.RPC("GetByRegion", "Req", "ByRegion", "POST", "/region"),
 		spec.RPC("GetNest", "Req", "Nest", "POST", "/nest"), spec.RPC("GetShelf", "Req", "Shelf", "POST", "/shelf"), spec.RPC("PutTree", "Tree", "Tree", "PUT", "/tree"))
 	f := &spec.File{Messages: msgs, Services: []*spec.Service{svc}}
 	return withCell(spec.One("x_unwrap_cycles", f), "ext/unit=unwrap_cycles", "extended", "valid", "genonly")
